@@ -160,6 +160,21 @@ U("u_pointer_codec_b", "utils", "harness/u_pointer_codec_b.c", no_contract=True,
   tdefs={"quick": ["-DPC_N=4"], "thorough": ["-DPC_N=5"]}, tunwind={"quick": 12, "thorough": 14}, timeout=(900, 3000))
 
 # ---------------------------------------------------------------- cJSON.c : recursive tree functions on small symbolic trees (bounded)
+U("print_b_00", "cjson", "harness/print_b.c", no_contract=True, shape="B", bound="tree shape: root + 0 children + 0 grandchild; no numbers, no escapes", funcs=["print_value", "print_array", "print_object", "print_string_ptr", "ensure", "update_offset", "cJSON_PrintPreallocated"],
+  props=["C04", "C05", "C09"], covers=3, unwind=66, unwindset=["tabs.0:4", "ref_value.0:3", "ref_value.1:3", "ref_value:4", "print_value:4", "print_array:3", "print_object:3", "print_array.0:4", "print_object.0:4", "print_object.1:4", "print_object.2:4"], timeout=(900, 3000),
+  defs=["-DPB_NC=0", "-DPB_NG=0", "-Dh_print_b=h_print_b_00"], note="real ensure() in noalloc mode; reference printer written from the documented layout")
+U("print_b_10", "cjson", "harness/print_b.c", no_contract=True, shape="B", bound="tree shape: root + 1 children + 0 grandchild; no numbers, no escapes", funcs=["print_value", "print_array", "print_object", "print_string_ptr", "ensure", "update_offset", "cJSON_PrintPreallocated"],
+  props=["C04", "C05", "C09"], covers=3, unwind=66, unwindset=["tabs.0:4", "ref_value.0:3", "ref_value.1:3", "ref_value:4", "print_value:4", "print_array:3", "print_object:3", "print_array.0:4", "print_object.0:4", "print_object.1:4", "print_object.2:4"], timeout=(900, 3000),
+  defs=["-DPB_NC=1", "-DPB_NG=0", "-Dh_print_b=h_print_b_10"], note="real ensure() in noalloc mode; reference printer written from the documented layout")
+U("print_b_20", "cjson", "harness/print_b.c", tiers=("thorough",), no_contract=True, shape="B", bound="tree shape: root + 2 children + 0 grandchild; no numbers, no escapes", funcs=["print_value", "print_array", "print_object", "print_string_ptr", "ensure", "update_offset", "cJSON_PrintPreallocated"],
+  props=["C04", "C05", "C09"], covers=3, unwind=66, unwindset=["tabs.0:4", "ref_value.0:3", "ref_value.1:3", "ref_value:4", "print_value:4", "print_array:3", "print_object:3", "print_array.0:4", "print_object.0:4", "print_object.1:4", "print_object.2:4"], timeout=(900, 3000),
+  defs=["-DPB_NC=2", "-DPB_NG=0", "-Dh_print_b=h_print_b_20"], note="real ensure() in noalloc mode; reference printer written from the documented layout")
+U("print_b_11", "cjson", "harness/print_b.c", tiers=("thorough",), no_contract=True, shape="B", bound="tree shape: root + 1 children + 1 grandchild; no numbers, no escapes", funcs=["print_value", "print_array", "print_object", "print_string_ptr", "ensure", "update_offset", "cJSON_PrintPreallocated"],
+  props=["C04", "C05", "C09"], covers=3, unwind=66, unwindset=["tabs.0:4", "ref_value.0:3", "ref_value.1:3", "ref_value:4", "print_value:4", "print_array:3", "print_object:3", "print_array.0:4", "print_object.0:4", "print_object.1:4", "print_object.2:4"], timeout=(900, 3000),
+  defs=["-DPB_NC=1", "-DPB_NG=1", "-Dh_print_b=h_print_b_11"], note="real ensure() in noalloc mode; reference printer written from the documented layout")
+U("print_b_21", "cjson", "harness/print_b.c", tiers=("thorough",), no_contract=True, shape="B", bound="tree shape: root + 2 children + 1 grandchild; no numbers, no escapes", funcs=["print_value", "print_array", "print_object", "print_string_ptr", "ensure", "update_offset", "cJSON_PrintPreallocated"],
+  props=["C04", "C05", "C09"], covers=3, unwind=66, unwindset=["tabs.0:4", "ref_value.0:3", "ref_value.1:3", "ref_value:4", "print_value:4", "print_array:3", "print_object:3", "print_array.0:4", "print_object.0:4", "print_object.1:4", "print_object.2:4"], timeout=(900, 3000),
+  defs=["-DPB_NC=2", "-DPB_NG=1", "-Dh_print_b=h_print_b_21"], note="real ensure() in noalloc mode; reference printer written from the documented layout")
 U("delete_b", "cjson", "harness/delete_b.c", no_contract=True, shape="B", bound="trees <= 4 nodes, depth <= 2", funcs=["cJSON_Delete"], props=["C07", "C14"], covers=3, unwind=5,
   timeout=(900, 3000), note="all flag/type combinations; real recursion unwound")
 U("duplicate_b_00", "cjson", "harness/duplicate_b.c", no_contract=True, shape="B", bound="tree shape: 0 children, 0 grandchild", funcs=["cJSON_Duplicate", "cJSON_Duplicate_rec"],
@@ -224,19 +239,26 @@ U("u_mergepatch_b_12", "both", "harness/u_mergepatch_b.c", tiers=("thorough",), 
 U("lookups_b", "cjson", "harness/lookups_b.c", no_contract=True, shape="B", bound="containers <= 4 children, 1-byte keys", funcs=["cJSON_GetArraySize", "get_array_item", "cJSON_GetArrayItem", "get_object_item", "case_insensitive_strcmp", "cJSON_GetObjectItem", "cJSON_GetObjectItemCaseSensitive", "cJSON_HasObjectItem"],
   props=["C06"], covers=3, unwind=7, timeout=(900, 3000))
 U("create_arrays_b_0m1", "cjson", "harness/create_arrays_b.c", no_contract=True, shape="B", bound="constructor 0 (0 int, 1 float, 2 double, 3 string), count -1", funcs=["cJSON_CreateIntArray", "cJSON_CreateFloatArray", "cJSON_CreateDoubleArray", "cJSON_CreateStringArray"],
-  props=["C06", "C07", "C08"], covers=2, unwind=6, unwindset=["cJSON_Delete:3", "cJSON_Delete.0:5", "vf_block.0:6"], timeout=(900, 3000), defs=["-DCA_COUNT=(-1)", "-DCA_WHICH=0", "-Dh_create_arrays_b=h_create_arrays_b_0m1"])
+  props=["C06", "C07", "C08"], covers=1, unwind=6, unwindset=["cJSON_Delete:3", "cJSON_Delete.0:5", "vf_block.0:6"], timeout=(900, 3000), defs=["-DCA_COUNT=(-1)", "-DCA_WHICH=0", "-Dh_create_arrays_b=h_create_arrays_b_0m1"])
 U("create_arrays_b_00", "cjson", "harness/create_arrays_b.c", no_contract=True, shape="B", bound="constructor 0 (0 int, 1 float, 2 double, 3 string), count 0", funcs=["cJSON_CreateIntArray", "cJSON_CreateFloatArray", "cJSON_CreateDoubleArray", "cJSON_CreateStringArray"],
   props=["C06", "C07", "C08"], covers=2, unwind=6, unwindset=["cJSON_Delete:3", "cJSON_Delete.0:5", "vf_block.0:6"], timeout=(900, 3000), defs=["-DCA_COUNT=(0)", "-DCA_WHICH=0", "-Dh_create_arrays_b=h_create_arrays_b_00"])
-U("create_arrays_b_03", "cjson", "harness/create_arrays_b.c", no_contract=True, shape="B", bound="constructor 0 (0 int, 1 float, 2 double, 3 string), count 3", funcs=["cJSON_CreateIntArray", "cJSON_CreateFloatArray", "cJSON_CreateDoubleArray", "cJSON_CreateStringArray"],
+U("create_arrays_b_03", "cjson", "harness/create_arrays_b.c", tiers=("thorough",), no_contract=True, shape="B", bound="constructor 0 (0 int, 1 float, 2 double, 3 string), count 3", funcs=["cJSON_CreateIntArray", "cJSON_CreateFloatArray", "cJSON_CreateDoubleArray", "cJSON_CreateStringArray"],
   props=["C06", "C07", "C08"], covers=2, unwind=6, unwindset=["cJSON_Delete:3", "cJSON_Delete.0:5", "vf_block.0:6"], timeout=(900, 3000), defs=["-DCA_COUNT=(3)", "-DCA_WHICH=0", "-Dh_create_arrays_b=h_create_arrays_b_03"])
-U("create_arrays_b_12", "cjson", "harness/create_arrays_b.c", no_contract=True, shape="B", bound="constructor 1 (0 int, 1 float, 2 double, 3 string), count 2", funcs=["cJSON_CreateIntArray", "cJSON_CreateFloatArray", "cJSON_CreateDoubleArray", "cJSON_CreateStringArray"],
+U("create_arrays_b_12", "cjson", "harness/create_arrays_b.c", tiers=("thorough",), no_contract=True, shape="B", bound="constructor 1 (0 int, 1 float, 2 double, 3 string), count 2", funcs=["cJSON_CreateIntArray", "cJSON_CreateFloatArray", "cJSON_CreateDoubleArray", "cJSON_CreateStringArray"],
   props=["C06", "C07", "C08"], covers=2, unwind=6, unwindset=["cJSON_Delete:3", "cJSON_Delete.0:5", "vf_block.0:6"], timeout=(900, 3000), defs=["-DCA_COUNT=(2)", "-DCA_WHICH=1", "-Dh_create_arrays_b=h_create_arrays_b_12"])
-U("create_arrays_b_22", "cjson", "harness/create_arrays_b.c", no_contract=True, shape="B", bound="constructor 2 (0 int, 1 float, 2 double, 3 string), count 2", funcs=["cJSON_CreateIntArray", "cJSON_CreateFloatArray", "cJSON_CreateDoubleArray", "cJSON_CreateStringArray"],
+U("create_arrays_b_22", "cjson", "harness/create_arrays_b.c", tiers=("thorough",), no_contract=True, shape="B", bound="constructor 2 (0 int, 1 float, 2 double, 3 string), count 2", funcs=["cJSON_CreateIntArray", "cJSON_CreateFloatArray", "cJSON_CreateDoubleArray", "cJSON_CreateStringArray"],
   props=["C06", "C07", "C08"], covers=2, unwind=6, unwindset=["cJSON_Delete:3", "cJSON_Delete.0:5", "vf_block.0:6"], timeout=(900, 3000), defs=["-DCA_COUNT=(2)", "-DCA_WHICH=2", "-Dh_create_arrays_b=h_create_arrays_b_22"])
-U("create_arrays_b_32", "cjson", "harness/create_arrays_b.c", no_contract=True, shape="B", bound="constructor 3 (0 int, 1 float, 2 double, 3 string), count 2", funcs=["cJSON_CreateIntArray", "cJSON_CreateFloatArray", "cJSON_CreateDoubleArray", "cJSON_CreateStringArray"],
+U("create_arrays_b_32", "cjson", "harness/create_arrays_b.c", tiers=("thorough",), no_contract=True, shape="B", bound="constructor 3 (0 int, 1 float, 2 double, 3 string), count 2", funcs=["cJSON_CreateIntArray", "cJSON_CreateFloatArray", "cJSON_CreateDoubleArray", "cJSON_CreateStringArray"],
   props=["C06", "C07", "C08"], covers=2, unwind=6, unwindset=["cJSON_Delete:3", "cJSON_Delete.0:5", "vf_block.0:6"], timeout=(900, 3000), defs=["-DCA_COUNT=(2)", "-DCA_WHICH=3", "-Dh_create_arrays_b=h_create_arrays_b_32"])
-U("create_arrays_b_33", "cjson", "harness/create_arrays_b.c", no_contract=True, shape="B", bound="constructor 3 (0 int, 1 float, 2 double, 3 string), count 3", funcs=["cJSON_CreateIntArray", "cJSON_CreateFloatArray", "cJSON_CreateDoubleArray", "cJSON_CreateStringArray"],
+U("create_arrays_b_33", "cjson", "harness/create_arrays_b.c", tiers=("thorough",), no_contract=True, shape="B", bound="constructor 3 (0 int, 1 float, 2 double, 3 string), count 3", funcs=["cJSON_CreateIntArray", "cJSON_CreateFloatArray", "cJSON_CreateDoubleArray", "cJSON_CreateStringArray"],
   props=["C06", "C07", "C08"], covers=2, unwind=6, unwindset=["cJSON_Delete:3", "cJSON_Delete.0:5", "vf_block.0:6"], timeout=(900, 3000), defs=["-DCA_COUNT=(3)", "-DCA_WHICH=3", "-Dh_create_arrays_b=h_create_arrays_b_33"])
 U("setvaluestring_b", "cjson", "harness/setvaluestring_b.c", no_contract=True, shape="B", bound="old string <= 3 bytes, new string <= 4 bytes", funcs=["cJSON_SetValuestring"],
   props=["C06", "C07", "C08"], covers=4, unwind=8, timeout=(900, 3000), ignore_desc=[r"same object violation"],
   note="the overlap test in cJSON_SetValuestring compares pointers into unrelated objects (flagged by CBMC as 'same object violation'; benign on flat address spaces, not a claim of any property here)")
+for _op, _opn in enumerate(("add", "remove", "replace", "move", "copy", "test", "bogus")):
+    for _nd in (1, 2):
+        U("u_applypatch_b_%s%d" % (_opn, _nd), "both", "harness/u_applypatch_b.c", no_contract=True, shape="B", bound="object document with %d members, one '%s' operation, paths '' or '/<key>'" % (_nd, _opn),
+          funcs=["apply_patch", "cJSONUtils_ApplyPatchesCaseSensitive", "detach_path", "decode_patch_operation", "compare_json", "overwrite_item", "get_item_from_pointer"],
+          props=["C16"], covers=3, unwind=8, unwindset=["cJSON_Delete:3", "cJSON_Delete.0:6", "cJSON_Duplicate_rec:3", "cJSON_Duplicate_rec.0:3", "vf_block.0:10", "sort_list:3", "sort_list.0:3", "sort_list.1:3", "sort_list.2:3", "compare_json:3", "compare_json.0:3", "compare_json.1:3", "mkstr.0:9"], timeout=(1200, 3000),
+          defs=["-DAP_ND=%d" % _nd, "-DAP_OP=%d" % _op, "-Dh_u_applypatch_b=h_u_applypatch_b_%s%d" % (_opn, _nd)], tiers=(("quick", "thorough") if _nd == 1 else ("thorough",)),
+          note="members present / absent / wrong type; reference = RFC 6902 on a key/value model")
